@@ -162,6 +162,8 @@ const XMLISH: &[&str] = &[
     "<", "</", "<a", "<a>", "</a>", "<a/>", "<b>", "</b>", "<!--", "-->", "<![CDATA[", "]]>", "<?", "?>", "<?xml version=\"1.0\"?>",
     "<?xml version=\"1.0\" encoding=\"", "\"?>", "&#", "&#x", ";", "&amp;", "&lt;", "&", "xmlns:p=\"u\"", "xmlns=\"u\"", " p:a=\"v\"", "p:", "=",
     "\"", "'", " ", "\n", "\r", "\t", ">", "/>", "a", "x", "\u{feff}", "é", "𝄞", "<!DOCTYPE a>", "<!ENTITY", "UTF-8", "utf-16", "foo", "ISO-8859-1",
+    // declarations that a hand-written scanner for the encoding pseudo-attribute has to survive
+    "<?xml version=\"1.0\"encoding=\"UTF-8\"?>", "<?xml encoding?>", "<?xml myencoding=\"x\" ?>", "<?xml version='1.0' encoding 'UTF-8'?>", "encoding", " encoding ", "<?xml ", "<?xml\t",
     "xml:id=\"i\"", "xml:space=\"preserve\"", "<a xmlns:p=\"u\">", "<p:a>", "</p:a>", "--", "]", "\0", "\u{1}", "\u{ffff}",
 ];
 
@@ -491,6 +493,13 @@ pub fn break_it(doc: &ANode, r: &Rendered, k: usize, rng: &mut Rng, fragment: bo
                 j = (j + 1) % free.len();
             }
             let (a, c) = if free[i].end < free[j].end { (free[i], free[j]) } else { (free[j], free[i]) };
+            if rng.chance(1, 4) {
+                // ids that are empty, or empty after normalisation, are equal too
+                let first = *rng.pick(&[" xml:id=\"\"", " xml:id=\" \"", " xml:id=\"\t\""]);
+                let second = *rng.pick(&[" xml:id=\"\"", " xml:id='  '", " xml:id=\"\n\""]);
+                let s = insert(t, c.end, second);
+                return b(insert(&s, a.end, first), "duplicate-empty-xml-id", false);
+            }
             let second = *rng.pick(&[" xml:id=\"dupid\"", " xml:id=\" dupid \"", " xml:id='dupid'"]);
             let s = insert(t, c.end, second);
             b(insert(&s, a.end, " xml:id=\"dupid\""), "duplicate-xml-id", false)
